@@ -1,7 +1,7 @@
 \* exhaustive run: action properties are checked on every transition of the view-reduced graph
 CONSTANTS
   Defects = {}
-  Vals = {1, 2, 3}
+  Vals = {1, 2, 3, 4, 5}
 VIEW View
 INVARIANTS TypeOK CacheCoherent StoredIsLastWritten
 PROPERTIES ViewsAgree Transparent FailureLeavesUnchanged WriteFaultReported
